@@ -106,7 +106,7 @@ def judge(ctx, last, head, changes, step, kind):
 def run(ctx):
     maxr = ctx.pick(9, 13)
     ctx.rule = ('exhaustive: every range length 1..%d, every subset of change points in (last, head], every step '
-                '1..length+2, value kinds rotating over %s; plus random ranges up to 400 levels with <=6 changes; '
+                '1..length+2, value kinds rotating over %s; plus random ranges up to 400 levels and of 1000 / 1025 / 5000 levels with <=6 changes; '
                 'non-trivial = at least one change; distinct by (range, change set, step, kind)' % (maxr, KINDS))
     ctx.exhaustive = True
     i = 0
@@ -124,7 +124,7 @@ def run(ctx):
     rng = ctx.rng
     for _ in range(ctx.pick(1500, 40000) // ctx.nshards):
         last = rng.choice([0, 1, 5, 1000, 10 ** 6])
-        R = rng.choice([1, 2, 59, 60, 61, 119, 120, 121, rng.randint(1, 400)])
+        R = rng.choice([1, 2, 59, 60, 61, 119, 120, 121, 127, 128, 129, 255, 256, 257, 1000, 1025, 5000, rng.randint(1, 400)])
         head = last + R
         k = rng.randint(0, min(6, R))
         changes = rng.sample(range(last + 1, head + 1), k)
